@@ -34,7 +34,9 @@ import PyaModel.Spec.Mem
 * unpacking `x1, …, xn = e` without starred target (`unpack_values`, section below) and calls to annotated
   module-level helper functions (the declared return type, whatever the arguments).
 
-Not modelled: everything else (loops, try, match, generic / builtin calls, boolean operators as values, comparisons as
+* `for x in e: body` without break / continue / else (section "for loops" and the `forS` case of `inferStmt`).
+
+Not modelled: everything else (`while`, break / continue / loop else, try, match, generic / builtin calls, boolean operators as values, comparisons as
 values, attribute access, augmented assignment, starred unpacking, `possibly_undefined_name` for names bound on one
 path only — the generator only reads definitely assigned names —, `simplification_limit`).
 -/
@@ -64,6 +66,7 @@ inductive Stmt where
   | ifs (t : Test) (body els : List Stmt)
   | ret (e : Expr)
   | unpack (xs : List Var) (e : Expr)         -- `x1, …, xn = e` (plain names, no starred target)
+  | forS (x : Var) (e : Expr) (body : List Stmt)   -- `for x in e: body` (no break / continue / else)
   deriving Repr, Inhabited
 
 /-- A function: the declared parameter types (parameters are the variables 0, 1, …), the declared return types of
@@ -167,18 +170,22 @@ def lookupDefs (ds : List Def) : Ty := unite ((Def.resolveL ds).flatMap flatten1
 * `litEq` (class `literalEqMerge`, a real defect): a literal subscript picks, out of a *literal* container, an
   element equal to `0`, `1`, `False` or `True` — `KnownValue.__eq__` is `type(a) is type(b) and a == b`,
   which identifies `(1,)` and `(True,)`, so `unite_values` keeps only one of them;
+* `loopNotFix` (class `loopCarriedLiteral`, a real defect): the values a loop body leaves in the variables it assigns
+  are not covered by the values assumed for them at the loop head (pyanalyze visits a loop body twice while
+  collecting and once while checking — no fixed point);
 * `frag`: a subscript outside the proved fragment (an unpacked member in the sequence, a base that is
   neither a literal/known sequence nor `list[T]`/`tuple[T, ...]`). -/
 structure Flags where
   noneReject : Bool := false
   litEq : Bool := false
   frag : Bool := false
+  loopNotFix : Bool := false
   deriving Repr, Inhabited, DecidableEq
 
 def Flags.or (a b : Flags) : Flags :=
-  ⟨a.noneReject || b.noneReject, a.litEq || b.litEq, a.frag || b.frag⟩
+  ⟨a.noneReject || b.noneReject, a.litEq || b.litEq, a.frag || b.frag, a.loopNotFix || b.loopNotFix⟩
 
-def Flags.none (f : Flags) : Bool := !f.noneReject && !f.litEq && !f.frag
+def Flags.none (f : Flags) : Bool := !f.noneReject && !f.litEq && !f.frag && !f.loopNotFix
 
 mutual
 /-- does resolving this definition node go through a `noneReject` member? -/
@@ -326,6 +333,84 @@ def unpackVals (v : Ty) (n : Nat) : List Ty × Flags :=
      | (some vs, f) => (vs, f)
      | (none, f) => (List.replicate n .any, f))
 
+/-! ## `for` loops: what is iterated (`value.py:2935 concrete_values_from_iterable`, `visit_For` :4207) -/
+
+structure IterInfo where
+  elem : Ty          -- the value bound to the loop variable
+  always : Bool      -- `always_entered`: the iterable is known to be non-empty
+  flags : Flags := {}
+  deriving Repr, Inhabited
+
+/-- one non-union value: `some ms` = the exact members, `none` = only the element type `elem` is known -/
+def iter1 (v : Ty) : Option (List Ty) × Ty × Flags :=
+  match replaceKnownSeq v with
+  | .seq c ms =>
+    let pairs := memberPairs ms
+    let lit : Flags := { litEq := isKnown (unannot v) && ms.any (fun m => match m with | .known o => numLike o | _ => false) }
+    if !(c == C.tuple || c == C.list) then (none, .any, { frag := true })
+    else if pairs.any (·.1) then (none, unite (pairs.map (·.2)), { frag := true })
+    else if ms.isEmpty then (some [], .union [], { frag := true })
+    else (some ms, unite ms, lit)
+  | .generic c [t] =>
+    if c == C.list || c == C.tuple then (none, t, {}) else (none, t, { frag := true })
+  | .any => (none, .any, {})
+  | _ => (none, .any, { frag := true })
+
+def iterL : List Ty → List (Option (List Ty) × Ty) × Flags
+  | [] => ([], {})
+  | v :: vs =>
+    let (r, t, f) := iter1 v
+    let (rs, g) := iterL vs
+    ((r, t) :: rs, f.or g)
+
+def iterInfo (v : Ty) : IterInfo :=
+  match v with
+  | .union [] => { elem := .union [], always := false, flags := { frag := true } }
+  | .union ts =>
+    let (rs, f) := iterL ts
+    let lens := rs.map fun r => match r.1 with | some ms => some ms.length | none => none
+    let concrete := match lens with
+      | some n :: rest => n > 0 && rest.all (· == some n)
+      | _ => false
+    { elem := unite (rs.map (·.2)), always := concrete, flags := f }
+  | _ =>
+    let (r, t, f) := iter1 v
+    { elem := t, always := (match r with | some ms => !ms.isEmpty | none => false), flags := f }
+
+/-- is the definition node `d` accounted for among `es`: the same node, or an assignment whose value has only members
+that some assignment in `es` has too -/
+def tyCovers (w v : Ty) : Bool := (flatten1 v).all fun m => dictMem m (flatten1 w)
+
+def entryCovered (d : Def) (es : List Def) : Bool :=
+  es.any (fun e => Def.sameB e d) ||
+    (match d with
+     | .val _ v => es.any fun e => match e with | .val _ w => tyCovers w v | _ => false
+     | _ => false)
+
+/-- every definition node the loop body leaves behind is covered by the scope assumed at the loop head -/
+def scopeCovers (head exit : Scope) : Bool :=
+  exit.all fun yd => yd.2.all fun d => entryCovered d (head.get yd.1)
+
+mutual
+def Expr.noIte : Expr → Bool
+  | .ite .. => false
+  | .disp _ es => Expr.noIteL es
+  | .sub e _ => e.noIte
+  | .call _ es => Expr.noIteL es
+  | _ => true
+def Expr.noIteL : List Expr → Bool
+  | [] => true
+  | e :: es => e.noIte && Expr.noIteL es
+end
+
+/-- loop bodies for which the three-visit model below is exact: assignments and unpackings without conditional
+expressions (no constraint is created inside the loop) -/
+def simpleBody : List Stmt → Bool
+  | [] => true
+  | .assign _ e :: ss => e.noIte && simpleBody ss
+  | .unpack _ e :: ss => e.noIte && simpleBody ss
+  | _ :: _ => false
+
 /-! ## inference -/
 
 structure St where
@@ -403,6 +488,23 @@ def inferStmt (st : St) (p : Path) : Stmt → St × Bool
     let (v, st1) := inferExpr R st (0 :: p) e
     let (vs, f) := unpackVals v xs.length
     (assignAll { st1 with flags := st1.flags.or f } xs vs, true)
+  | .forS x e body =>
+    -- `visit_For` :4207. Collecting phase: the body is visited from the pre-loop scope, then again from the scope
+    -- after the loop; checking phase: once, every read using the definition nodes recorded by BOTH collecting visits
+    -- (`usage_to_definition_nodes`), i.e. the pre-loop ones and those the second visit saw, with the values the
+    -- second visit stored. No further iteration: `loopNotFix` records that the result is not a fixed point.
+    let (v, st0) := inferExpr R st (0 :: p) e
+    let info := iterInfo v
+    let start (sc : Scope) (fl : Flags) (lg : List (Path × Ty)) : St :=
+      { sc := sc.set x [.val st0.next info.elem], next := st0.next + 1, flags := fl, log := lg }
+    let p1 := inferBlock (start st0.sc {} []) (1 :: p) 0 body
+    let s2 := if info.always then p1.1.sc else joinScopes p1.1.sc st0.sc
+    let p2 := inferBlock (start s2 {} []) (1 :: p) 0 body
+    let s3 := joinScopes st0.sc p2.1.sc
+    let p3 := inferBlock (start s3 (st0.flags.or info.flags) st0.log) (1 :: p) 0 body
+    let after := if info.always then p3.1.sc else joinScopes p3.1.sc st0.sc
+    ({ p3.1 with sc := after,
+                 flags := p3.1.flags.or { loopNotFix := !scopeCovers s3 p3.1.sc, frag := !simpleBody body || !p3.2 } }, true)
   | .ifs tst body els =>
     let (_, st0) := st.lookup tst.var
     let (x, pos) := tst.con
